@@ -231,10 +231,14 @@ bool Hist::opBulkParams() {
     size_t est = paramSectionBytes(prev);
     int n = rng.range(3, 4); bool any = false;
     for (int k = 0; k < n; ++k) {
-        if (est + 31000 > 118000) break;      // stay well inside 255 blocks (130 560 bytes)
-        est += 31000;
+        // a record may itself be longer than 32 767 bytes (its next-offset word needs all 16 bits): every third one is
+        bool longRec = (k % 3 == 1);
+        size_t cost = longRec ? 46000 : 31000;
+        if (est + cost > 118000) break;      // stay well inside 255 blocks (130 560 bytes)
+        est += cost;
         Param p("BULK" + std::to_string(k)); std::vector<size_t> dm; std::string ds;
-        if (rng.chance(60)) { size_t a = (size_t)rng.range(200, 255), b = (size_t)rng.range(25, 30); dm.push_back(a); dm.push_back(b); std::vector<float> v(a * b); for (size_t i = 0; i < v.size(); ++i) v[i] = 0.25f * (float)(i % 9973) - 100.f; p.set(v, dm); ds = "float"; }
+        if (longRec) { size_t a = (size_t)rng.range(250, 255), b = (size_t)rng.range(33, 44); dm.push_back(a); dm.push_back(b); std::vector<float> v(a * b); for (size_t i = 0; i < v.size(); ++i) v[i] = 0.5f * (float)(i % 7919) - 50.f; p.set(v, dm); ds = "float"; }
+        else if (rng.chance(60)) { size_t a = (size_t)rng.range(200, 255), b = (size_t)rng.range(25, 30); dm.push_back(a); dm.push_back(b); std::vector<float> v(a * b); for (size_t i = 0; i < v.size(); ++i) v[i] = 0.25f * (float)(i % 9973) - 100.f; p.set(v, dm); ds = "float"; }
         else { size_t a = (size_t)rng.range(200, 255), b = (size_t)rng.range(50, 60); dm.push_back(a); dm.push_back(b); std::vector<int> v(a * b); for (size_t i = 0; i < v.size(); ++i) v[i] = (int)(i % 60000) - 30000; p.set(v, dm); ds = "int"; }
         SParam given = takeParam(p);
         log.pre("parameter", "bulk"); Outcome oc; VF_TRY(oc, obj->parameter(group, p));
